@@ -167,9 +167,10 @@ func ExtractValue(v reflect.Value, extractor ValueExtractor) {
 			return
 		}
 
-		for _, keyValue := range v.MapKeys() {
-			ExtractValue(keyValue, extractor)
-			ExtractValue(v.MapIndex(keyValue), extractor)
+		// through an iterator: a NaN key cannot be looked up again
+		for iter := v.MapRange(); iter.Next(); {
+			ExtractValue(iter.Key(), extractor)
+			ExtractValue(iter.Value(), extractor)
 		}
 		return
 	}
